@@ -1296,6 +1296,347 @@ fn part6_chains(cx: &Ctx) {
 }
 
 // ---------------------------------------------------------------------------------------------
+// part 7: operation sequences (explicit-state BFS on the real Stream/Document next to a model)
+
+static OPEN_FRONTIERS: AtomicU64 = AtomicU64::new(0);
+
+#[derive(Clone, Copy, Debug, PartialEq)]
+enum Op {
+    SCompress,
+    SDecompress,
+    DCompress,
+    DDecompress,
+    SetContent(usize),
+    SetPlain(usize),
+}
+
+impl Op {
+    fn name(&self) -> String {
+        match self {
+            Op::SCompress => "Stream::compress".into(),
+            Op::SDecompress => "Stream::decompress".into(),
+            Op::DCompress => "Document::compress".into(),
+            Op::DDecompress => "Document::decompress".into(),
+            Op::SetContent(i) => format!("set_content:{}", i),
+            Op::SetPlain(i) => format!("set_plain_content:{}", i),
+        }
+    }
+    fn parse(s: &str) -> Op {
+        let idx = |s: &str| s.split(':').nth(1).and_then(|x| x.parse().ok()).unwrap_or(0);
+        match s {
+            "Stream::compress" => Op::SCompress,
+            "Stream::decompress" => Op::SDecompress,
+            "Document::compress" => Op::DCompress,
+            "Document::decompress" => Op::DDecompress,
+            x if x.starts_with("set_content:") => Op::SetContent(idx(x)),
+            x if x.starts_with("set_plain_content:") => Op::SetPlain(idx(x)),
+            _ => machinery("replay: unknown operation"),
+        }
+    }
+}
+
+fn flate_best_len(data: &[u8]) -> usize {
+    rc::zlib_flate2(data, 9).len()
+}
+
+/// contents: compressible, incompressible, empty, and three whose best zlib form saves exactly
+/// 19, 20 and 21 bytes (found by a deterministic search; the threshold in Stream::compress is 19)
+fn op_contents() -> Vec<(String, Vec<u8>)> {
+    let mut out = vec![
+        ("compressible".to_string(), Plain::Period { pat: b"the quick brown fox ".to_vec(), len: 1000 }.bytes()),
+        ("incompressible".to_string(), lcg_bytes(99, 300, 0xff)),
+        ("empty".to_string(), vec![]),
+    ];
+    for want in [19usize, 20, 21] {
+        let mut found = None;
+        'search: for tail in 0..40usize {
+            for k in 1..400usize {
+                let mut c = vec![b'a'; k];
+                c.extend(lcg_bytes(5, tail, 0xff));
+                let z = flate_best_len(&c);
+                if c.len() >= z && c.len() - z == want {
+                    found = Some(c);
+                    break 'search;
+                }
+            }
+        }
+        match found {
+            Some(c) => out.push((format!("saves {} bytes", want), c)),
+            None => machinery("no content with the wanted saving found"),
+        }
+    }
+    out
+}
+
+#[derive(Clone)]
+struct OpState {
+    doc: Document,
+    plain: Vec<u8>,
+    /// how the model believes the content is encoded now
+    chain: Vec<Stage>,
+    parms: Parms,
+    filter_array: bool,
+}
+
+const SID: (u32, u16) = (1, 0);
+
+fn fit_rows(chain: &[Stage], len: usize) -> Vec<Stage> {
+    let mut c = chain.to_vec();
+    if let Some(st) = c.last_mut() {
+        if let Some(p) = st.pred.as_mut() {
+            p.rows = (0..len / p.row_bytes().max(1)).map(|r| [2u8, 4, 1, 0][r % 4]).collect();
+        }
+    }
+    c
+}
+
+fn op_start(c: &Case, allows: bool) -> OpState {
+    let plain = c.plain.bytes();
+    let mut s = if c.stages.is_empty() { Stream::new(Dictionary::new(), plain.clone()) } else { c.stream(c.encode(&plain)) };
+    s.allows_compression = allows;
+    let mut doc = Document::with_version("1.5");
+    doc.objects.insert(SID, Object::Stream(s));
+    doc.objects.insert((2, 0), Object::Integer(7));
+    doc.max_id = 2;
+    OpState { doc, plain, chain: c.stages.clone(), parms: c.parms, filter_array: c.filter_array }
+}
+
+fn the_stream(doc: &mut Document) -> &mut Stream {
+    match doc.objects.get_mut(&SID) {
+        Some(Object::Stream(s)) => s,
+        _ => machinery("stream object vanished"),
+    }
+}
+
+/// apply one operation to the real objects and to the model; returns the invariant violations
+fn op_apply(st: &mut OpState, op: Op, menu: &[(String, Vec<u8>)]) -> Vec<String> {
+    let mut bad = vec![];
+    let before_len = the_stream(&mut st.doc).content.len();
+    let had_filter = the_stream(&mut st.doc).dict.has(b"Filter");
+    match op {
+        Op::SCompress | Op::DCompress => {
+            let r = if op == Op::SCompress {
+                util::guard(|| the_stream(&mut st.doc).compress().map_err(|e| e.to_string()))
+            } else {
+                util::guard(|| {
+                    st.doc.compress();
+                    Ok(())
+                })
+            };
+            match r {
+                Err(p) => bad.push(p),
+                Ok(Err(e)) => bad.push(format!("compress returned Err: {}", e)),
+                Ok(Ok(())) => {}
+            }
+            let s = the_stream(&mut st.doc);
+            if s.content.len() > before_len {
+                bad.push(format!("compress made the content longer: {} -> {} bytes", before_len, s.content.len()));
+            }
+            if !had_filter && s.dict.has(b"Filter") {
+                // the stream chose to compress: it must say so with FlateDecode and no parameters
+                let f = s.filters().map(|v| v.iter().map(|n| n.to_vec()).collect::<Vec<_>>()).unwrap_or_default();
+                if f != vec![b"FlateDecode".to_vec()] || s.dict.has(b"DecodeParms") {
+                    bad.push(format!("compress produced an unexpected dictionary: {}", vharness::objjson::show_dict(&s.dict)));
+                }
+                st.chain = vec![Stage::plain(F::Flate)];
+                st.parms = Parms::None;
+                st.filter_array = false;
+            }
+        }
+        Op::SDecompress => {
+            let r = util::guard(|| the_stream(&mut st.doc).decompress().map_err(|e| e.to_string()));
+            match r {
+                Err(p) => bad.push(p),
+                Ok(Err(e)) => {
+                    if !st.chain.is_empty() {
+                        bad.push(format!("decompress of a validly encoded stream returned Err: {}", e));
+                    }
+                }
+                Ok(Ok(())) => st.chain.clear(),
+            }
+        }
+        Op::DDecompress => {
+            if let Err(p) = util::guard(|| st.doc.decompress()) {
+                bad.push(p);
+            }
+            if !the_stream(&mut st.doc).dict.has(b"Filter") {
+                st.chain.clear();
+            }
+        }
+        Op::SetContent(i) => {
+            // raw content: the caller supplies bytes encoded for the filters the dictionary names
+            let p = &menu[i].1;
+            let chain = fit_rows(&st.chain, p.len());
+            let c = Case { part: String::new(), stages: chain.clone(), filter_array: st.filter_array, parms: st.parms, plain: Plain::Hex(vec![]) };
+            let content = c.encode(p);
+            if let Err(e) = util::guard(|| the_stream(&mut st.doc).set_content(content)) {
+                bad.push(e);
+            }
+            st.chain = chain;
+            st.plain = p.clone();
+        }
+        Op::SetPlain(i) => {
+            let p = menu[i].1.clone();
+            if let Err(e) = util::guard(|| the_stream(&mut st.doc).set_plain_content(p.clone())) {
+                bad.push(e);
+            }
+            st.chain.clear();
+            st.plain = p;
+        }
+    }
+    if st.chain.is_empty() {
+        st.parms = Parms::None;
+    }
+    // invariants in the reached state
+    let plain = st.plain.clone();
+    let s = the_stream(&mut st.doc);
+    match s.dict.get(b"Length") {
+        Ok(Object::Integer(n)) if *n == s.content.len() as i64 => {}
+        other => bad.push(format!("dict[Length] = {:?} but content.len() = {}", other.ok(), s.content.len())),
+    }
+    match util::guard(|| s.get_plain_content()) {
+        Err(p) => bad.push(p),
+        Ok(Err(e)) => bad.push(format!("get_plain_content returned Err: {}", e)),
+        Ok(Ok(d)) => {
+            if let Res::Mismatch { .. } = compare(&d, &plain) {
+                bad.push(format!("get_plain_content: {}", compare(&d, &plain).describe()));
+            }
+        }
+    }
+    bad
+}
+
+fn op_key(st: &OpState) -> Vec<u8> {
+    let mut d = st.doc.clone();
+    let s = the_stream(&mut d);
+    let mut k = vharness::objjson::dict_to_json(&s.dict).to_string().into_bytes();
+    k.push(s.allows_compression as u8);
+    k.extend_from_slice(&(s.content.len() as u64).to_le_bytes());
+    k.extend_from_slice(&s.content);
+    k.extend_from_slice(&st.plain);
+    k.push(st.chain.len() as u8);
+    k
+}
+
+fn ops_json(start: &Case, allows: bool, menu: &[(String, Vec<u8>)], path: &[Op]) -> Value {
+    json!({"kind": "ops", "start": start.to_json(), "allows_compression": allows,
+        "content_menu": menu.iter().map(|(n, b)| json!({"name": n, "hex": hex(b)})).collect::<Vec<_>>(),
+        "ops": path.iter().map(|o| o.name()).collect::<Vec<_>>()})
+}
+
+fn op_starts(menu: &[(String, Vec<u8>)]) -> Vec<(Case, bool)> {
+    let mut out = vec![];
+    for (_, content) in menu {
+        let mut encodings: Vec<(Vec<Stage>, Parms, bool)> = vec![
+            (vec![], Parms::None, false),
+            (vec![Stage::plain(F::Flate)], Parms::None, false),
+            (vec![Stage { enc: Enc::Level(9), ..Stage::plain(F::Flate) }], Parms::None, true),
+            (vec![Stage::plain(F::Lzw)], Parms::None, false),
+            (vec![Stage::plain(F::A85), Stage::plain(F::Flate)], Parms::None, true),
+        ];
+        let mut pst = Stage::plain(F::Flate);
+        pst.pred = Some(Pred { predictor: 12, colors: 1, bpc: 8, columns: 1, rows: vec![], omit_defaults: false });
+        encodings.push((fit_rows(&[pst], content.len()), Parms::Dict, false));
+        for (stages, parms, fa) in encodings {
+            for allows in [true, false] {
+                out.push((Case { part: "ops".into(), stages: stages.clone(), filter_array: fa, parms, plain: Plain::of(content) }, allows));
+            }
+        }
+    }
+    out
+}
+
+fn start_state(c: &Case, allows: bool) -> OpState {
+    op_start(c, allows)
+}
+
+fn part7_ops(cx: &Ctx) {
+    let run = cx.run;
+    let menu = op_contents();
+    let savings: Vec<Value> = menu
+        .iter()
+        .map(|(n, b)| {
+            let mut s = Stream::new(Dictionary::new(), b.clone());
+            let _ = s.compress();
+            json!({"name": n, "len": b.len(), "best_zlib_len": flate_best_len(b), "stream_compress_applies": s.dict.has(b"Filter")})
+        })
+        .collect();
+    run.set("op_content_menu", Value::Array(savings));
+    let mut ops = vec![Op::SCompress, Op::SDecompress, Op::DCompress, Op::DDecompress];
+    for i in 0..menu.len() {
+        ops.push(Op::SetContent(i));
+        ops.push(Op::SetPlain(i));
+    }
+    let starts = op_starts(&menu);
+    let depth = if run.thorough { 5 } else { 3 };
+    let compressed_seen = AtomicU64::new(0);
+    let open_frontiers = &OPEN_FRONTIERS;
+    util::par_for(starts.len(), |si| {
+        let (sc, allows) = &starts[si];
+        let s0 = start_state(sc, *allows);
+        let mut seen = std::collections::HashSet::new();
+        seen.insert(op_key(&s0));
+        let mut frontier: Vec<(Vec<Op>, OpState)> = vec![(vec![], s0)];
+        for _ in 0..depth {
+            let mut next = vec![];
+            for (path, st) in &frontier {
+                for op in &ops {
+                    let mut n = st.clone();
+                    let mut p = path.clone();
+                    p.push(*op);
+                    run.eval(1);
+                    run.add_transitions(1);
+                    let was_plain = st.chain.is_empty();
+                    let bad = op_apply(&mut n, *op, &menu);
+                    if matches!(op, Op::SCompress | Op::DCompress) && was_plain && !n.chain.is_empty() {
+                        compressed_seen.fetch_add(1, Ordering::Relaxed);
+                    }
+                    if bad.is_empty() {
+                        run.add_traces(1);
+                    } else {
+                        cx.failed.fetch_add(1, Ordering::Relaxed);
+                        run.fail(None, ops_json(sc, *allows, &menu, &p), &bad.join("; "),
+                            "dict[Length] == content.len(), get_plain_content() == model plain content, compress never lengthens the content");
+                    }
+                    if seen.insert(op_key(&n)) {
+                        next.push((p, n));
+                    }
+                }
+            }
+            frontier = next;
+        }
+        if !frontier.is_empty() {
+            open_frontiers.fetch_add(1, Ordering::Relaxed);
+        }
+        run.add_states(seen.len() as u64);
+        run.nontrivial(seen.len() as u64 - 1);
+    });
+    run.add("op_start_states", starts.len() as u64);
+    run.add("op_compress_transitions_that_compressed", compressed_seen.load(Ordering::Relaxed));
+    run.set("op_depth", json!(depth));
+    run.add("op_starts_with_unexplored_frontier_at_depth_bound", open_frontiers.load(Ordering::Relaxed));
+    run.sample(ops_json(&starts[57].0, starts[57].1, &menu, &[Op::SDecompress, Op::SetPlain(4), Op::DCompress]));
+}
+
+fn replay_ops(case: &Value) -> Vec<String> {
+    let sc = Case::from_json(&case["start"]);
+    let menu: Vec<(String, Vec<u8>)> = case["content_menu"]
+        .as_array()
+        .map(|a| a.iter().map(|m| (m["name"].as_str().unwrap_or("").to_string(), unhex(m["hex"].as_str().unwrap_or("")))).collect())
+        .unwrap_or_default();
+    let mut st = start_state(&sc, case["allows_compression"].as_bool().unwrap_or(true));
+    let mut all = vec![];
+    for o in case["ops"].as_array().unwrap_or_else(|| machinery("replay: no ops")) {
+        let op = Op::parse(o.as_str().unwrap_or(""));
+        let bad = op_apply(&mut st, op, &menu);
+        let s = the_stream(&mut st.doc);
+        println!("after {:<24} dict={} content.len()={} violations={:?}", op.name(), vharness::objjson::show_dict(&s.dict), s.content.len(), bad);
+        all.extend(bad);
+    }
+    all
+}
+
+// ---------------------------------------------------------------------------------------------
 
 fn main() {
     let run = Run::from_args("C09", "exploration");
@@ -1335,10 +1676,26 @@ fn main() {
     timed("4_lzw", &part4_lzw);
     timed("5_flate", &part5_flate);
     timed("6_chains", &part6_chains);
+    timed("7_op_sequences", &part7_ops);
     run.set("part_wall_s", Value::Object(timings));
     run.add("failing_cases_total", cx.failed.load(Ordering::Relaxed));
-    // the stated finite space of the tier was completed (quick tier states its subsets above)
-    run.exhaustive(run.thorough);
+    // pixel data of the larger frames, the long LZW inputs and the Flate/chain plain texts are fixed
+    // menus, so the run as a whole is not an exhaustive enumeration; the complete sub-spaces are:
+    let mut complete = vec![
+        "part 1: all 2^24 (left, above, upper-left) triples x 4 filter types x 6 bytes-per-pixel, both decode paths",
+        "part 2: every 5^n pixel assignment for Colors 1, 8 bit, Columns 1..3, rows 1..2 x every filter assignment",
+        "part 3: every ASCII85 input of length 0..3 (16,843,009)",
+        "part 4: every string over 3 symbols up to the stated length x EarlyChange absent/1/0",
+        "part 6: all 39 chains",
+    ];
+    if OPEN_FRONTIERS.load(Ordering::Relaxed) == 0 {
+        complete.push("part 7: the whole reachable state set (every BFS frontier was empty at the depth bound)");
+    }
+    if run.thorough {
+        complete.push("part 3: all 2^32 full ASCII85 groups");
+    }
+    run.set("complete_subspaces", json!(complete));
+    run.exhaustive(false);
     run.finish();
 }
 
@@ -1363,9 +1720,15 @@ fn replay(run: &Run, path: &std::path::Path) -> ! {
             println!("observed: {:?} (bytes compared, wrong bytes, first wrong byte not explained by png-avg)", r);
             run.finish_replay(!matches!(r, Ok((_, 0, _))))
         }
+        Some("ops") => {
+            let a = replay_ops(&case);
+            let b = replay_ops(&case);
+            if a != b {
+                machinery("replay not deterministic");
+            }
+            println!("observed: {}", if a.is_empty() { "all invariants hold along the path".to_string() } else { a.join("; ") });
+            run.finish_replay(!a.is_empty())
+        }
         _ => machinery("unknown replay kind"),
     }
 }
-
-#[allow(dead_code)]
-fn unused(_: &Document) {}
